@@ -59,6 +59,9 @@ func runAudits(w *World, cs *Contracts, mods *ModAnalysis, prop string, out *che
 	var audited []string
 	for _, rn := range roots {
 		root := w.Funcs[rn]
+		if root != nil && cs.Funcs[rn].CancellableParam != "" {
+			lifetimeParam[root] = cs.Funcs[rn].CancellableParam
+		}
 		if root == nil {
 			out.errs = append(out.errs, "contract drift: cancellable function "+rn+" not found")
 			continue
@@ -115,7 +118,7 @@ func runAudits(w *World, cs *Contracts, mods *ModAnalysis, prop string, out *che
 	}
 	out.byBackend["effect-audit"] += out.auditObls - len(out.auditFail)
 	out.extra["cancellable_functions_audited"] = audited
-	out.assumptions["effect audit (C14): a select is taken to be cancellable when one case receives from the Done() channel of SOME context; that this context is the one cancelled at shutdown (p.ctx or a caller-supplied context) is not checked"] = true
+	out.assumptions["effect audit (C14): a select is taken to be cancellable when one case receives from the Done() channel of a context stored in a struct field (the instance's lifetime context); that every such field holds the constructor's context or one derived from it is not checked"] = true
 	out.assumptions["effect audit (C14): blocking in module dependencies (libp2p host, streams, discovery) and in sync.Mutex/Cond is outside the audit"] = true
 }
 
@@ -143,6 +146,46 @@ func closureRunsHere(mc *ssa.MakeClosure) bool {
 	return false
 }
 
+// lifetimeParam: functions whose named context parameter IS the lifetime context (goroutine
+// roots started by the constructor with its context), declared with `cancellable <param>`.
+var lifetimeParam = map[*ssa.Function]string{}
+
+func isParamCtxDone(v ssa.Value, param string) bool {
+	if param == "" {
+		return false
+	}
+	c, ok := v.(*ssa.Call)
+	if !ok || !isCtxDone(c) {
+		return false
+	}
+	var src ssa.Value = c.Call.Value
+	for i := 0; i < 4; i++ {
+		switch x := src.(type) {
+		case *ssa.Parameter:
+			return x.Name() == param
+		case *ssa.UnOp:
+			if a, ok := x.X.(*ssa.Alloc); ok && x.Op == token.MUL {
+				if refs := a.Referrers(); refs != nil {
+					found := false
+					for _, r := range *refs {
+						if s, ok := r.(*ssa.Store); ok && s.Addr == ssa.Value(a) {
+							src = s.Val
+							found = true
+						}
+					}
+					if found {
+						continue
+					}
+				}
+			}
+			return false
+		default:
+			return false
+		}
+	}
+	return false
+}
+
 // auditFunc classifies the blocking channel operations of one function body.
 func auditFunc(fn *ssa.Function) []blockingOp {
 	var ops []blockingOp
@@ -160,11 +203,11 @@ func auditFunc(fn *ssa.Function) []blockingOp {
 				}
 				ok := false
 				for _, st := range x.States {
-					if st.Dir == types.RecvOnly && isCtxDone(st.Chan) {
-						ok = true
+					if st.Dir == types.RecvOnly && (isLifetimeCtxDone(st.Chan) || timerChan(st.Chan) || isParamCtxDone(st.Chan, lifetimeParam[fn])) {
+						ok = true // lifetime context, or a timer (the wait is bounded and the loop comes back)
 					}
 				}
-				add("select", x.Pos(), ok, "blocking select without a case on a context's Done() channel")
+				add("select", x.Pos(), ok, "blocking select without a case on the Done() channel of the instance's lifetime context (a context stored in a field, e.g. p.ctx); a caller-supplied context alone does not end the wait at shutdown")
 			case *ssa.Send:
 				ok, why := sendOK(x)
 				add("send", x.Pos(), ok, why)
@@ -189,6 +232,58 @@ func auditFunc(fn *ssa.Function) []blockingOp {
 		}
 	}
 	return ops
+}
+
+// isLifetimeCtxDone: v is X.Done() where the context X is loaded from a struct field (the
+// context given to the constructor and stored in the instance), directly or through a local.
+func isLifetimeCtxDone(v ssa.Value) bool {
+	c, ok := v.(*ssa.Call)
+	if !ok {
+		if u, ok := v.(*ssa.UnOp); ok && u.Op == token.MUL {
+			if a, ok := u.X.(*ssa.Alloc); ok {
+				if refs := a.Referrers(); refs != nil {
+					for _, r := range *refs {
+						if s, ok := r.(*ssa.Store); ok && s.Addr == ssa.Value(a) && isLifetimeCtxDone(s.Val) {
+							return true
+						}
+					}
+				}
+			}
+		}
+		return false
+	}
+	if !isCtxDone(c) {
+		return false
+	}
+	return fromField(c.Call.Value, 0)
+}
+
+// fromField: the value is loaded from a struct field (possibly via a single-assignment local).
+func fromField(v ssa.Value, depth int) bool {
+	if depth > 4 {
+		return false
+	}
+	switch x := v.(type) {
+	case *ssa.UnOp:
+		if x.Op != token.MUL {
+			return false
+		}
+		if _, ok := x.X.(*ssa.FieldAddr); ok {
+			return true
+		}
+		if a, ok := x.X.(*ssa.Alloc); ok {
+			if refs := a.Referrers(); refs != nil {
+				for _, r := range *refs {
+					if s, ok := r.(*ssa.Store); ok && s.Addr == ssa.Value(a) && fromField(s.Val, depth+1) {
+						return true
+					}
+				}
+			}
+		}
+	case *ssa.Field:
+		return true
+	}
+	return false
 }
 
 // isCtxDone: v is the result of calling Done() on a context.Context.
